@@ -73,6 +73,14 @@ func runC01(args []string) {
 	defer permCleanup()
 	txPermutedPath = permPath
 	datasets := []string{"ValidModel.csv", "TestingModel.csv", "PERMUTED"}
+	genStats := map[string]int{}
+	nGen := 3
+	if tier == "thorough" {
+		nGen = 25
+	}
+	genNames, genCleanup := txAddGenerated(p, nGen, genStats)
+	defer genCleanup()
+	datasets = append(datasets, genNames...)
 	walkLen, walks, oracleEvery := 60, 2, 3
 	if tier == "thorough" {
 		walkLen, walks, oracleEvery = 200, 6, 1
@@ -107,6 +115,9 @@ func runC01(args []string) {
 		// a prefix of it in the quick tier
 		g := catchOpen(txPath(ds), nil)
 		limit := 256
+		if limit > 1<<uint(g.nact) {
+			limit = 1 << uint(g.nact)
+		}
 		if tier == "thorough" {
 			limit = 1 << uint(g.nact)
 			if limit > 1<<15 {
@@ -139,6 +150,9 @@ func runC01(args []string) {
 			}
 			stats["gray_states"]++
 		}
+	}
+	for k, v := range genStats {
+		stats[k] = v
 	}
 	stats["oracle_failures"] = failures
 	emit(J{"kind": "stat", "stats": stats})
